@@ -126,6 +126,9 @@ def mini(tier):
     for ba in (None, 'HB', 'return'):
         for fa in (None, 'HX', 'return'):
             out.append(['fin', ba, fa])
+    # (index -1, used as an outer block only) a try..finally whose body is
+    # left by an exception outside the Exception hierarchy
+    out.append(['fin', 'HQ', None])
     return out
 
 
@@ -233,6 +236,27 @@ def cases(tier):
                 idx += 1
                 yield {'fam': 'samename', 'handlers': names, 'order': order,
                        'via': 'raise-expr', 'syntax': SYNTAXES[idx % 3]}
+    # classes whose names merely contain a handler's name
+    for k in (1, 2):
+        for hs in itertools.product(range(len(mi_h)), repeat=k):
+            names = [mi_h[i] for i in hs]
+            if sum(1 for n in names if not n) > 1:
+                continue
+            for br in ('ZHB', 'HBZ'):
+                idx += 1
+                yield {'fam': 'flat', 'handlers': names, 'br': br,
+                       'hr': None, 'else': None,
+                       'syntax': SYNTAXES[idx % 3]}
+    # an exception outside the Exception hierarchy: no handler takes it,
+    # every finally body on its way still runs once
+    for fa in (None, 'HX', 'return'):
+        for sx in SYNTAXES:
+            yield {'fam': 'fin', 'ba': 'HQ', 'fa': fa, 'syntax': sx}
+    for ii, inner in enumerate(mini(tier)):
+        for where in ('body', 'finally'):
+            idx += 1
+            yield {'fam': 'nest2', 'outer': -1, 'inner': ii, 'where': where,
+                   'syntax': SYNTAXES[idx % 3]}
     # empty bodies: a matching handler without content still handles, an
     # empty else / finally / try body changes nothing else
     eh = [['HA'], ['HB'], ['HX'], []]
@@ -321,7 +345,7 @@ def namespace(rv=0):
         ns['raise' + c] = ['raiser', 'r' + c, c, 'msg-' + c]
         ns[c + 'c'] = ['exc', c]
     for c in ('KeyError~', 'NotFound~', 'KeyError', 'IndexError',
-              'ValueError'):
+              'ValueError', 'ZHB', 'HBZ', 'HQ'):
         ns['raise' + c.replace('~', 'F')] = ['raiser', 'r' + c, c,
                                              'msg-' + c]
     return ns
